@@ -248,6 +248,15 @@ def run(prog, rep):
         rep.violation('R4', loc(acb.module, rb), 'ABCCBMPropertyGraph.rollback', 'delete does not precede re-homing',
                       'rollback must delete the current combined model before the snapshot takes over its id, otherwise both '
                       'node sets end up under the same graph id')
+    # the combined model is deleted only once the snapshot is known to exist
+    if dl:
+        _, dconds = _enclosing(dl[0], rb)
+        exist_checked = any(isinstance(x, ast.Call) and call_name(x) in ('graph_exists', 'node_exists', 'list_all_node_ids', 'get_graph') for c_ in dconds for x in ast.walk(c_))
+        rep.instance('R4', f'rollback: the snapshot is verified to exist before the combined model is deleted: {exist_checked}')
+        if not exist_checked:
+            rep.violation('R4', loc(acb.module, dl[0]), 'ABCCBMPropertyGraph.rollback', 'combined model deleted before the snapshot is known to exist',
+                          'rollback deletes the combined model first and only then looks at the snapshot: with a snapshot id that is not (or no '
+                          'longer - a snapshot is consumed by the rollback to it) in the store the re-homing fails and no combined model is left at all')
     if rh:
         pv = kwarg(rh[0], 'prop_val')
         pn = kwarg(rh[0], 'prop_name')
